@@ -1938,6 +1938,8 @@ yaclib::Promise<void> g_gp_v;
 yaclib::SharedPromise<int> g_gsp_i;
 yaclib::SharedPromise<void> g_gsp_v;
 
+std::atomic<bool> g_parked{false};  // the lazy function has stored its promise
+
 void FulfilGet(void*) {
   if (g_gp_i.Valid()) {
     std::move(g_gp_i).Set(1);
@@ -2016,7 +2018,9 @@ void RunGetV(const GetSpec& s, GetResult& r) {
         if (timing == 0) {
           FulfilGet(nullptr);
         }
+        g_parked.store(true, std::memory_order_release);
       });
+      g_parked.store(false, std::memory_order_relaxed);
       GetSpec s2 = s;
       if (s.timing == 0) {
         // nothing to fulfil before the call
@@ -2033,7 +2037,7 @@ void RunGetV(const GetSpec& s, GetResult& r) {
         // the promise only exists once Get has started the task: the helper polls for it
         g_helper.Arm(
           [](void*) {
-            while (!g_gp_i.Valid() && !g_gp_v.Valid()) {
+            while (!g_parked.load(std::memory_order_acquire)) {
               std::this_thread::yield();
             }
             std::this_thread::sleep_for(std::chrono::microseconds(200));
